@@ -3,7 +3,7 @@
    input, computed by the real go/types in the harness; the field-by-field agreement of the whole
    dump with go/types is decided by the correspondence run, the theorems below settle the parts
    that are gengo's own logic: name splitting, the builtin table, kinds, generic origins). *)
-Require Import Gengo.Base.Str Gengo.Model.Universe Gengo.Proofs.UniverseProofs.
+Require Import Gengo.Base.Str Gengo.Model.Universe Gengo.Proofs.UniverseProofs Gengo.Proofs.CanonProofs Gengo.Proofs.FaithfulProofs.
 
 (* tcNameToName / goNameToName: a spelling that is not an anonymous type's (and, for v2, carries no
    type arguments) is cut at its LAST dot: package path before it, a dot-free type name after it *)
@@ -56,6 +56,80 @@ Theorem C01_generic_from_origin : forall p rec u use t1 t2 s1 s2 un1 ms1 un2 ms2
   walk_step true p rec u use t1 = walk_step true p rec u use t2.
 Proof. exact generic_described_from_origin. Qed.
 Print Assumptions C01_generic_from_origin.
+
+(* ---- structural faithfulness, shape by shape: the entry built for a composite type whose entry
+   was still undecided records, position by position, the CANONICAL OBJECT of each child type of
+   the type checker's node (child_is: canon of the child's key), with names, embedded flags, tags,
+   lengths and the variadic flag verbatim and in declaration order.  named_ok is the decidable
+   shape condition on node tables checked on every run (C11.wellformed). ---- *)
+Theorem C01_pointer_slice_chan_faithful : forall v2 p, named_ok v2 p -> forall f u use t tstr c sh k u' o,
+  wf u -> canonical v2 u -> plookup t p = Some (tstr, sh) ->
+  (sh = SPtr c /\ k = "Pointer" \/ sh = SSlice c /\ k = "Slice" \/ sh = SChan c /\ k = "Chan")%string ->
+  walk v2 p (S f) u use t = Some (u', o) ->
+  let nm := match use with Some n => n | None => name_of_string v2 tstr end in
+  complete (fst (get_or_create v2 u nm)) (snd (get_or_create v2 u nm)) = false ->
+  exists e, nlookup o (objs u') = Some e /\ e_kind e = s k /\ exists n, e_elem e = Some n /\ child_is v2 p None c n.
+Proof. exact elem_faithful. Qed.
+Print Assumptions C01_pointer_slice_chan_faithful.
+
+Theorem C01_array_faithful : forall v2 p, named_ok v2 p -> forall f u use t tstr len c u' o,
+  wf u -> canonical v2 u -> plookup t p = Some (tstr, SArray len c) ->
+  walk v2 p (S f) u use t = Some (u', o) ->
+  let nm := match use with Some n => n | None => name_of_string v2 tstr end in
+  complete (fst (get_or_create v2 u nm)) (snd (get_or_create v2 u nm)) = false ->
+  exists e, nlookup o (objs u') = Some e /\ e_kind e = s "Array" /\ e_len e = len /\ exists n, e_elem e = Some n /\ child_is v2 p None c n.
+Proof. exact array_faithful. Qed.
+Print Assumptions C01_array_faithful.
+
+(* key and element are each the right child: never swapped *)
+Theorem C01_map_faithful : forall v2 p, named_ok v2 p -> forall f u use t tstr kt c u' o,
+  wf u -> canonical v2 u -> plookup t p = Some (tstr, SMap kt c) ->
+  walk v2 p (S f) u use t = Some (u', o) ->
+  let nm := match use with Some n => n | None => name_of_string v2 tstr end in
+  complete (fst (get_or_create v2 u nm)) (snd (get_or_create v2 u nm)) = false ->
+  exists e, nlookup o (objs u') = Some e /\ e_kind e = s "Map" /\
+            (exists nk, e_key e = Some nk /\ child_is v2 p None kt nk) /\ (exists ne, e_elem e = Some ne /\ child_is v2 p None c ne).
+Proof. exact map_faithful. Qed.
+Print Assumptions C01_map_faithful.
+
+(* struct fields in declaration order with name, embedded flag, verbatim tag and type *)
+Theorem C01_struct_faithful : forall v2 p, named_ok v2 p -> forall f u use t tstr fs u' o,
+  wf u -> canonical v2 u -> plookup t p = Some (tstr, SStruct fs) ->
+  walk v2 p (S f) u use t = Some (u', o) ->
+  let nm := match use with Some n => n | None => name_of_string v2 tstr end in
+  complete (fst (get_or_create v2 u nm)) (snd (get_or_create v2 u nm)) = false ->
+  exists e, nlookup o (objs u') = Some e /\ e_kind e = s "Struct" /\
+            Forall2 (fun (fd : str * bool * str * N) (m : str * bool * str * name) =>
+                       fst m = fst fd /\ child_is v2 p None (snd fd) (snd m)) fs (e_members e).
+Proof. exact struct_faithful. Qed.
+Print Assumptions C01_struct_faithful.
+
+(* parameter / result names and types in order, variadic flag, receiver *)
+Theorem C01_func_faithful : forall v2 p, named_ok v2 p -> forall f u use t tstr ps rs vr recv u' o,
+  wf u -> canonical v2 u -> plookup t p = Some (tstr, SFunc ps rs vr recv) ->
+  walk v2 p (S f) u use t = Some (u', o) ->
+  let nm := match use with Some n => n | None => name_of_string v2 tstr end in
+  complete (fst (get_or_create v2 u nm)) (snd (get_or_create v2 u nm)) = false ->
+  exists e g, nlookup o (objs u') = Some e /\ e_kind e = s "Func" /\ e_sig e = Some g /\ s_variadic g = vr /\
+    Forall2 (fun (a : str * N) (b : str * name) => fst b = fst a /\ child_is v2 p None (snd a) (snd b)) ps (s_params g) /\
+    Forall2 (fun (a : str * N) (b : str * name) => fst b = fst a /\ child_is v2 p None (snd a) (snd b)) rs (s_results g) /\
+    match recv, s_recv g with
+    | Some r, Some n => child_is v2 p None r n
+    | None, None => True
+    | _, _ => False end.
+Proof. exact func_faithful. Qed.
+Print Assumptions C01_func_faithful.
+
+(* interface methods by name, each with the object of its signature *)
+Theorem C01_interface_faithful : forall v2 p, named_ok v2 p -> forall f u use t tstr ms u' o,
+  wf u -> canonical v2 u -> plookup t p = Some (tstr, SIface ms) ->
+  walk v2 p (S f) u use t = Some (u', o) ->
+  let nm := match use with Some n => n | None => name_of_string v2 tstr end in
+  complete (fst (get_or_create v2 u nm)) (snd (get_or_create v2 u nm)) = false ->
+  exists e, nlookup o (objs u') = Some e /\ e_kind e = s "Interface" /\
+    Forall2 (fun m (x : str * name) => fst x = fst (fst m) /\ child_is v2 p (Some (name_of_string v2 (snd (fst m)))) (snd m) (snd x)) ms (e_methods e).
+Proof. exact iface_faithful. Qed.
+Print Assumptions C01_interface_faithful.
 
 (* non-vacuity: p.T = struct{ A int8; B *p.T } *)
 Definition ex_prog : prog :=
